@@ -91,13 +91,13 @@ theorem nestl_getitem_refines {g : LazyLoadingTrees} {l : Lazy} (h : LRep g l) (
 
 /-- **`Population.__getitem__(slice)` as translated**: the `NestTrees` over THE container of the population and the index list
 `range(*key.indices(len(self)))`; ValueError (step 0) is the only failure -/
-theorem pop_getitem_slice_refines {g : LazyLoadingTrees} {l : Lazy} (h : LRep g l) (root : String) (s : Py.Slice) :
-    pop_getitem_slice ⟨g, root⟩ s = ((Py.sliceIndices s (l.len : Int)).bind Py.range3).map (fun idx => ⟨g, idx⟩) := by
+theorem pop_getitem_slice_refines {g : LazyLoadingTrees} {l : Lazy} (h : LRep g l) (root : String) (s : Py.PF.Slice) :
+    pop_getitem_slice ⟨g, root⟩ s = ((Py.PF.sliceIndices s (l.len : Int)).bind Py.PF.range3).map (fun idx => ⟨g, idx⟩) := by
   have hlen := pop_len_refines h root
-  cases hs : Py.sliceIndices s (l.len : Int) with
+  cases hs : Py.PF.sliceIndices s (l.len : Int) with
   | none => simp [pop_getitem_slice, pop_getitem_slice.body, seq, skip, Py.bind, hlen, hs, finish]
   | some t =>
-    cases hr : Py.range3 t with
+    cases hr : Py.PF.range3 t with
     | none => simp [pop_getitem_slice, pop_getitem_slice.body, seq, skip, Py.bind, hlen, hs, hr, finish]
     | some idx => simp [pop_getitem_slice, pop_getitem_slice.body, seq, skip, Py.bind, hlen, hs, hr, nestl_init_eq, finish]
 
